@@ -14,6 +14,7 @@ import numpy as np
 
 from harness import common as C
 from harness import debiasers_corr as DC
+from harness import probes
 
 PROP = "C03"
 TARGETS = ["IbicusModel.Props.C03"]
@@ -153,7 +154,8 @@ def make(name, mode, ymode=None, **extra):
         if name == "ECDFM":
             return ECDFM(distribution=scipy.stats.norm, cdf_threshold=float(extra.get("t", 1e-10)), **kw)
         if name == "QDM-absolute":
-            return QuantileDeltaMapping(distribution=scipy.stats.norm, trend_preservation="absolute", **kw, **years_kw(ymode))
+            tkw = dict(cdf_threshold=float(extra["t"])) if "t" in extra else {}
+            return QuantileDeltaMapping(distribution=scipy.stats.norm, trend_preservation="absolute", **tkw, **kw, **years_kw(ymode))
         if name == "QDM-relative":
             return QuantileDeltaMapping(distribution=scipy.stats.gamma, trend_preservation="relative",
                                         censor_values_to_zero=bool(extra.get("censor", False)),
@@ -209,6 +211,19 @@ def gen_case(rng, name, tier, j=1):
                sd_ratio=rng.choice([0.5, 1.0, 1.0, 2.0]), shift=rng.choice([-6.0, -1.0, 0.0, 2.0, 10.0]), trend=rng.choice([0.0, 0.0, 0.5]))
     if name.endswith("-flux"):
         rec["flux"] = FLUX[j % len(FLUX)]
+    if name in ("ECDFM", "QDM-absolute") or name.startswith("QM-parametric"):
+        # non-default cdf_threshold (the parameter has to reach every place that thresholds), with values in the clipped tails
+        rec["t"] = [1e-3, 1e-6, 1e-10, 1e-2][j % 4]
+        rec["outliers"] = rng.choice([1, 2, 5])
+    # the time axes in every encoding the library accepts, mixed between the three series; windowed cases span a leap year
+    rec["kinds"] = [probes.pick_kind(rng) for _ in range(3)]
+    if windowed:
+        if j % 2 == 0:  # deterministic share: numpy datetimes against python objects
+            m8, ob = rng.choice(["M8D", "M8h", "M8s", "M8ns"]), rng.choice(["date", "datetime", "plain"])
+            rec["kinds"] = rng.choice([[m8, ob, rng.choice([m8, ob])], [ob, m8, rng.choice([m8, ob])]])
+        rec["y0"] = rec["y0"] - rec["y0"] % 4 - rng.randint(0, max(0, rec["nyO"] - 1))  # a leap year inside the obs period
+        if (rec["y0"] + rec["nyO"] - 1) // 4 * 4 < rec["y0"] or ((rec["y0"] + rec["nyO"] - 1) // 4 * 4) % 100 == 0 and ((rec["y0"] + rec["nyO"] - 1) // 4 * 4) % 400 != 0:
+            rec["y0"] = 1996
     if name == "QDM-relative":
         rec["censor"] = j % 2 == 0  # every other case with censor_values_to_zero (the precipitation default)
         # ... and then with cm_future values EXACTLY at the censoring threshold ("at or above" must survive)
@@ -255,6 +270,15 @@ def build(rec):
     else:
         obs = tas_series(nprs, dO, 283.0, 3.0)
         F = tas_series(nprs, dF, 283.0 + rec["shift"], 3.0 * rec["sd_ratio"], trend=rec["trend"])
+    if "t" in rec:
+        extra = dict(extra, t=rec["t"])
+        k_out = int(rec.get("outliers", 0))
+        if k_out and rec["config"] not in MULT and F.size >= 100:
+            # events 6.5 - 8 sigma from the mean: inside the clipped tails of a non-default threshold
+            # (sized by the total spread of the series incl. its annual cycle; few enough not to inflate the fitted scale much)
+            k_out = min(k_out, max(1, F.size // 400))
+            idx = nprs.choice(F.size, size=k_out, replace=False)
+            F[idx] = np.mean(F) + nprs.choice([-1.0, 1.0], size=k_out) * nprs.uniform(6.5, 8.0, size=k_out) * np.std(F)
     return dict(obs=obs, F=F, dO=dO, dF=dF, extra=extra)
 
 
@@ -318,15 +342,26 @@ def run_case(rec):
     # the unchanged code (measured: <= 4e-13); 1e-9 leaves three orders of magnitude
     tol = (1e-9 if name in ITER_FIT else 1e-8) * scale
     info = {"n_obs": int(obs.size), "n_fut": int(F.size), "skipped_clipped": 0, "tie_free": tie_free(obs, F)}
+    # the same calendar days, each series in its own time encoding (python dates, datetimes, cftime-like objects, datetime64[D/h/s/ns])
+    kO, kH, kF = rec.get("kinds", ["date", "date", "date"])
     with warnings.catch_warnings(), np.errstate(all="ignore"):
         warnings.simplefilter("ignore")
         if name.startswith("DC-"):
             # DeltaChange with an unchanged model (cm_future == cm_hist): returns obs.  `F` plays the model here.
-            out = deb.apply_location(obs, F, F.copy(), dO, dF, dF)
+            shown = [(dO, probes.present(dO, kO)), (dF, probes.present(dF, kH)), (dF, probes.present(dF, kF))]
+            out = deb.apply_location(obs, F, F.copy(), shown[0][1], shown[1][1], shown[2][1])
             want, what = obs, "obs"
         else:
-            out = deb.apply_location(obs, obs.copy(), F, dO, dO, dF)
+            shown = [(dO, probes.present(dO, kO)), (dO, probes.present(dO, kH)), (dF, probes.present(dF, kF))]
+            out = deb.apply_location(obs, obs.copy(), F, shown[0][1], shown[1][1], shown[2][1])
             want, what = F, "cm_future"
+    cal = []
+    for d, sh in shown:
+        probes.check_calendar(d, cal, what="calendar", presented=sh)
+    if cal:  # reported (once per run) only when the property itself shows nothing on this input
+        info["calendar"] = f"{cal[0][0]} (time encodings {rec.get('kinds')}, first date {dO[0]})"
+    with warnings.catch_warnings(), np.errstate(all="ignore"):
+        warnings.simplefilter("ignore")
         keep = np.ones(want.size, dtype=bool)
         if name.startswith("QM-parametric") or name in ITER_FIT:
             # ITER_FIT: also skip the ill-conditioned upper tail (1 - cdf < 1e-5: ppf(cdf(x)) loses digits there)
@@ -348,7 +383,8 @@ def run_case(rec):
     worst = int(np.argmax(excess))
     if excess[worst] > 0:
         tw = float(tol[worst]) if isinstance(tol, np.ndarray) else tol
-        return (f"{name} (windows {mode}, year windows {ymode}): with cm_hist == obs the output differs from {what} by {err[worst]:.3g} "
+        return (f"{name} (windows {mode}, year windows {ymode}, cdf_threshold {rec.get('t')}, time encodings {rec.get('kinds')}): "
+                f"with cm_hist == obs the output differs from {what} by {err[worst]:.3g} "
                 f"at step {worst} ({out[worst]!r} vs {want[worst]!r}; tolerance {tw:.3g}); {int((excess > 0).sum())} of {want.size} steps differ"), info
     return None, info
 
@@ -417,7 +453,11 @@ def run_apply_case(rec):
         obs, H, F = a.astype(dtO), b.astype(dtH), b.astype(dtF)
     with warnings.catch_warnings(), np.errstate(all="ignore"):
         warnings.simplefilter("ignore")
-        kw = dict(parallel=True, nr_processes=2) if rec.get("parallel") else {}
+        kw = {}
+        if rec.get("parallel"):
+            kw = dict(parallel=True)
+            if rec.get("nr_processes"):
+                kw["nr_processes"] = int(rec["nr_processes"])  # absent = the library's default (4)
         out = deb.apply(obs, H, F, progressbar=False, **kw)
     scale = float(max(np.max(np.abs(a)), np.max(np.abs(b))))
     tol = (1e-5 if single else 1e-8) * scale
@@ -526,10 +566,17 @@ def run(tier, res, force_search=False):
                   sample={k2: rec[k2] for k2 in ("config", "mode", "ymode", "nyO", "nyF")})
         if p:
             problems.append((p, rec))
+        elif info.get("calendar") and not any(r.get("config") == "calendar" for _, r in problems):
+            problems.append(("time axis handed to the debiaser: " + info["calendar"], dict(rec, config="calendar", case_config=name)))
     res.extra["oracle"] = {"cases": n_or, "steps_compared": compared, "qm_steps_skipped_as_clipped": skipped, "tolerance": "1e-8*max(1,|values|)"}
     other_pairs_note(rng, res)
     utils_inverse_large(rng, tier, res, problems)
-    apply_cases(rng, tier, res, problems, PROP)
+    # ... and through the process pool, also with fewer cells than worker processes (default nr_processes = 4)
+    par = [dict(config="apply/LS-additive/parallel", prop=PROP, debiaser=deb_name, dtypes=["float64"] * 3, shape=shape, n=rng.randint(100, 400),
+                np_seed=rng.randint(0, 2**31 - 1), shift=rng.choice([-6.0, 2.0, 10.0]), parallel=True, nr_processes=nproc)
+           for deb_name, shape, nproc in [("LS-additive", [1, 1], None), ("ECDFM", [1, 3], None), ("DC-additive", [2, 3], 2)]
+           + ([("QM-parametric-additive", [3, 4], 16), ("LS-additive", [2, 2], 3)] if tier != "quick" else [])]
+    apply_cases(rng, tier, res, problems, PROP, extra=par)
 
     seen = set()
     for p, rec in problems:
@@ -552,6 +599,11 @@ def replay(data):
     if str(rec.get("config", "")).startswith("apply/"):
         p, info = run_apply_case(rec)
         print("replay", rec["config"], "->", p or "property holds on this input", info)
+        return 1 if p else 0
+    if rec.get("config") == "calendar":
+        p, info = run_case(dict(rec, config=rec["case_config"]))
+        p = p or info.get("calendar")
+        print("replay calendar ->", p or "property holds on this input")
         return 1 if p else 0
     if rec.get("config") == "utils-ecdf-iecdf":
         import random as _r
